@@ -31,7 +31,7 @@ def rarely(draw, rare, usual, one_in):
 
 # --- Cartesian grids ---------------------------------------------------------------------
 @st.composite
-def cart_grids(draw, dims=(1, 2, 3), max_shape=(24, 24, 12), min_shape=1, aniso=(0.4, 2.5), periodic=None, log_spacing=(-2.0, 1.5)):
+def cart_grids(draw, dims=(1, 2, 3), max_shape=(24, 24, 12), min_shape=1, aniso=(0.4, 2.5), periodic=None, log_spacing=(-2.0, 1.5), far=False):
     dim = draw(st.sampled_from(list(dims)))
     cap = max_shape[dim - 1]
     shape = [draw(st.integers(min_shape, cap)) for _ in range(dim)]
@@ -45,6 +45,9 @@ def cart_grids(draw, dims=(1, 2, 3), max_shape=(24, 24, 12), min_shape=1, aniso=
     if draw(st.integers(0, 9)) == 0 and aniso[0] <= 1 <= aniso[1] and log_spacing[0] <= 0 <= log_spacing[1]:
         # the unit grid: spacing exactly 1, origin 0 (built with pde.UnitGrid, see oracles.make_cart_grid)
         spacing, origin = [1.0] * dim, [0.0] * dim
+    elif far and draw(st.integers(0, 7)) == 3:
+        # a box far away from the origin: lower corner at 1e6 ... 1e8 box lengths (coordinates much larger than all sizes)
+        origin = [float(o + draw(st.sampled_from([-1.0, 1.0])) * 10.0 ** draw(st.integers(6, 8)) * n * d * draw(st.sampled_from([1.0, 0.37, 2.9]))) for o, n, d in zip(origin, shape, spacing)]
     return {"origin": origin, "shape": shape, "spacing": spacing, "periodic": per}
 
 
